@@ -112,6 +112,12 @@ func ZZ_C39_tx() {
 		ins = append(ins, inp)
 	}
 	tx.SetInputs(ins)
+	if nd.Choose("txidAlsoWatched", 2) == 1 {
+		// the transaction's own id is in the filter as well (a wallet that
+		// created the transaction watches it): the outputs must still be processed
+		h := tx.Hash()
+		bf.AddHash(&h)
+	}
 	matched := bf.MatchTxAndUpdate(tx)
 	nd.Reach("decided")
 	nd.Assert(matched, "relevant_transaction_matches")
